@@ -255,9 +255,16 @@ def kill_case(case):
                 os.close(r)
                 ds = lazy_dataset.new(list(range(n))).map(lambda i: payload(i, sizes[i])) \
                     .diskcache(d, reuse=True, clear=False)
-                for i in range(n):
-                    ds[i]
-                    os.write(w, b'a')
+                if case.get('fill') == 'iter':
+                    for _ in ds:  # filling by iteration: every example is stored when it is yielded
+                        os.write(w, b'a')
+                elif case.get('fill') == 'items_prefetch':
+                    for _ in ds.prefetch(1, 1):
+                        os.write(w, b'a')
+                else:
+                    for i in range(n):
+                        ds[i]
+                        os.write(w, b'a')
                 os.write(w, b'z')
                 time.sleep(30)
             finally:
@@ -339,14 +346,14 @@ def run_shard(tier, idx, nshards, rec, known):
     profiles = [[100] * 5, [100, 40000, 100, 40000, 33000], [40000] * 4]
     delays = [0] if tier == 'quick' else [0, 50, 500, 3000]
     k = 0
-    for sizes in profiles:
+    for sizes, fill in [(p, f) for p in profiles for f in ('index', 'iter')] + [(profiles[1], 'items_prefetch')]:
         n = len(sizes)
         for j in range(0, n + 1):
             for dl in delays:
                 k += 1
                 if k % nshards != idx:
                     continue
-                case = {'mode': 'kill', 'n': n, 'sizes': sizes, 'kill_after': j, 'delay_us': dl}
+                case = {'mode': 'kill', 'n': n, 'sizes': sizes, 'kill_after': j, 'delay_us': dl, 'fill': fill}
                 try:
                     acked = kill_case(case)
                 except Violation as v:
@@ -355,7 +362,7 @@ def run_shard(tier, idx, nshards, rec, known):
                         continue
                     out.violation = (case, v.sig, v.detail)
                     return [out]
-                rec.case(dict(case, acknowledged=acked), acked >= 1, ['kill', f'kill-after:{j}',
+                rec.case(dict(case, acknowledged=acked), acked >= 1, ['kill', f'kill-after:{j}', 'fill:' + fill,
                                                                       'large-payload' if max(sizes) > 32768 else 'small'],
                          size=n)
 
